@@ -59,6 +59,10 @@ EXPLANATION += (
     ' Round 7: a slice store in a loop whose source changes moves with the loop (R-CURSOR/store-advances).'
 )
 
+EXPLANATION += (
+    ' Round 9: every return after the sorting of a request passes through a use of the permutation or its inverse (R-PERM/unsort-before-return, generalised).'
+)
+
 RULE_TEXT = (
     "one obligation per step / chunk-extent site, per range relation of "
     "the dispatch loop, per piece-list mutation, per dispatcher x member")
